@@ -4,12 +4,12 @@
     Full strength: run-length coder (every byte list, every partition into write calls, every sequence of reads
     and forward/backward seeks, also on top of an older longer stream = rewrite from the start); compression
     header; n-bit field extraction and mask construction over their complete finite domains.
-    Partial (named ..._partial, missing lemma stated): n-bit projection through the bit stream, skipping Huffman.
+    n-bit (nbit_roundtrip) and skipping Huffman (skphuff_roundtrip) are full strength since the deepening round.
     Bit I/O (Hbitwrite / flush / Hbitread / Hbitseek bit manipulation, widths 1..32): full strength at the level of
     the byte stream (bitio_roundtrip, bitio_same_widths). *)
 From Coq Require Import ZArith List Bool String Lia.
 Require Import H4.gen.Gen_Comp H4.CompSpec H4.CompRleModel H4.CompRleProofs H4.CompCodecModel H4.CompCodecProofs
-  H4.CompBitioProofs H4.CompBitbufModel H4.CompBitbufProofs H4.CompNbitProofs.
+  H4.CompBitioProofs H4.CompBitbufModel H4.CompBitbufProofs H4.CompNbitProofs H4.CompSkpProofs H4.CompNbitFullProofs H4.CompNbitFinalProofs.
 Import ListNotations.
 Local Open Scope Z_scope.
 Notation concat := List.concat.
@@ -65,19 +65,28 @@ Theorem nbit_byte_projection : forall off len b fill,
 Proof. exact nbit_byte_roundtrip_lemma. Qed.
 Print Assumptions nbit_byte_projection.
 
+(** n-bit, FULL STRENGTH: for every configuration (number-type size 1, 2, 4, 8; every start bit and bit length; sign
+    extension and fill-one on or off) and every list of whole values, decoding the stream produced by the encoder
+    returns exactly the documented projection of every value (field kept, low bits filled with fill_one, high bits
+    with the field's top bit when sign_ext, else with fill_one).  The proof composes the mask construction of
+    HCIcnbit_init, the per-byte field extraction / re-insertion, the bit stream (bitio_roundtrip), the control
+    structure of the decoder's value and byte loops and the sign-extension step. *)
+Theorem nbit_roundtrip : forall size start len se fo values,
+  In size [1; 2; 4; 8] -> 0 <= start < 8 * size -> 1 <= len <= start + 1 ->
+  Forall (fun v => zlen v = size /\ Forall byte v) values ->
+  let c := mk_nbit size start len se fo in
+  nbit_decode c (nbit_encode c (concat values)) (zlen values) = Some (nbit_project size start len se fo (concat values)).
+Proof. exact nbit_roundtrip_lemma. Qed.
+Print Assumptions nbit_roundtrip.
+
 (** n-bit, mask table (complete finite domain: sizes 1,2,4,8 x every start bit x every length): the table built
     by the loop of HCIcnbit_init is the big-endian byte image of the documented field mask
     [ones(len) << (start-len+1)], every entry has the per-byte shape above, the lengths add up to bit_len.
-    PARTIAL with respect to the property: together with nbit_byte_projection and nbit_bitstream (below: the decoder
-    reading the encoder's stream gets back exactly the encoder's fields) this covers mask construction, field
-    extraction / re-insertion and the bit stream; what is still missing for "nbit_decode (nbit_encode v) =
-    nbit_project v" as ONE statement is the composition through the control structure of nbit_decode_bytes and
-    the sign-extension step (high bytes 0x00/0xff, sign byte or-ed / and-ed with sign_ext_mask), which rest on
-    the correspondence run (extracted nbit_decode on the library's raw streams vs nbit_project). *)
-Theorem nbit_projection_partial : forall size start len,
+    (Formerly nbit_projection_partial; now an ingredient of nbit_roundtrip, kept for the record.) *)
+Theorem nbit_mask_table : forall size start len,
   In size [1; 2; 4; 8] -> 0 <= start < 8 * size -> 1 <= len <= start + 1 -> nbit_cfg_case size start len = true.
 Proof. exact nbit_masks_lemma. Qed.
-Print Assumptions nbit_projection_partial.
+Print Assumptions nbit_mask_table.
 
 (** n-bit bit-stream lemma: for every valid configuration and every byte list, reading the stream produced by the
     n-bit encoder with the widths of the mask table returns exactly the fields the encoder extracted. *)
@@ -89,16 +98,38 @@ Theorem nbit_bitstream : forall size start len se fo bytes,
 Proof. exact nbit_bitstream_lemma. Qed.
 Print Assumptions nbit_bitstream.
 
-(** Skipping Huffman.  PARTIAL: (a) from the initial tree every one of the 256 symbols decodes to itself and the
-    decoder consumes exactly the code (complete finite domain); (b) lock-step: if the walk returns the encoded
-    symbol, decoder and encoder continue with the same trees.  MISSING: skp_splay preserves the tree invariant
-    (up is the inverse of left/right, every leaf reachable from ROOT), which gives the hypothesis of (b) for
-    every reachable tree and hence the round trip for every byte list and skip size. *)
-Theorem skphuff_first_symbol_partial : forall c, 0 <= c < 256 -> skp_first_symbol_case c = true.
-Proof. exact skp_first_symbol_lemma. Qed.
-Print Assumptions skphuff_first_symbol_partial.
+(** Skipping Huffman, full strength.  The tree invariant [twf] (the 512 nodes occupy the 512 child slots, [up] is the
+    inverse of left/right, every node reaches ROOT along the parent pointers) holds for the initial tree and is
+    preserved by the semi-splay for every symbol; in every such tree the walk down from ROOT along the code of a
+    symbol reaches that symbol's leaf and consumes exactly the code (fuel 600 is never exhausted: the walk to ROOT
+    visits distinct nodes, so it is shorter than 512). *)
+Theorem skphuff_tree_invariant : twf tree_init /\
+  forall t b suffix, twf t -> 0 <= b < 256 ->
+    skp_walk_down 600 t ROOT (skp_code t b ++ suffix) = Some (b, suffix) /\ twf (skp_splay t b).
+Proof. exact (conj tree_init_twf skp_code_decodes_lemma). Qed.
+Print Assumptions skphuff_tree_invariant.
 
-Theorem skphuff_lockstep_partial : forall trees pos b rest bits n,
+(** Round trip: for EVERY byte list and EVERY skip size >= 1 the decoder returns the bytes that were encoded (the
+    decoder is asked for exactly that many symbols; no fuel is exhausted). *)
+Theorem skphuff_roundtrip : forall skip bytes, 1 <= skip -> Forall byte bytes ->
+  skp_decode skip (skp_encode skip bytes) (zlen bytes) = Some bytes.
+Proof. exact skp_roundtrip_lemma. Qed.
+Print Assumptions skphuff_roundtrip.
+
+(** The same on the bit stream with anything behind it (further symbols of later write calls, padding). *)
+Theorem skphuff_prefix_roundtrip : forall skip bytes more, 1 <= skip -> Forall byte bytes ->
+  skp_decode_bits (List.length bytes) (repeat tree_init (Z.to_nat skip)) 0
+    (skp_encode_bits (repeat tree_init (Z.to_nat skip)) 0 bytes ++ more) = Some bytes.
+Proof. exact skp_prefix_lemma. Qed.
+Print Assumptions skphuff_prefix_roundtrip.
+
+(** Earlier partial results, now corollaries kept for the record: every symbol from the initial tree (finite
+    sweep), and the lock-step induction step. *)
+Theorem skphuff_first_symbol : forall c, 0 <= c < 256 -> skp_first_symbol_case c = true.
+Proof. exact skp_first_symbol_lemma. Qed.
+Print Assumptions skphuff_first_symbol.
+
+Theorem skphuff_lockstep : forall trees pos b rest bits n,
   (forall suffix, skp_walk_down 600 (nth pos trees tree_init) ROOT (skp_code (nth pos trees tree_init) b ++ suffix)
                   = Some (b, suffix)) ->
   skp_decode_bits (S n) trees pos (skp_encode_bits trees pos (b :: rest) ++ bits) =
@@ -110,7 +141,7 @@ Theorem skphuff_lockstep_partial : forall trees pos b rest bits n,
   | Some r => Some (b :: r)
   end.
 Proof. exact skp_lockstep_lemma. Qed.
-Print Assumptions skphuff_lockstep_partial.
+Print Assumptions skphuff_lockstep.
 
 (** Deflate: zlib is external code; under the stated hypothesis about it the session round-trips. *)
 Theorem deflate_roundtrip_under_zlib :
@@ -197,11 +228,16 @@ Proof.
   exists 24, 1, 0, 7, 4. repeat split; try reflexivity; vm_compute; intuition discriminate.
 Qed.
 
-Example nbit_example :
+Example nbit_example : (In 2 [1; 2; 4; 8] /\ 0 <= 9 < 8 * 2 /\ 1 <= 4 <= 9 + 1 /\
+  Forall (fun v => zlen v = 2 /\ Forall byte v) [[1; 255]; [2; 64]]) /\
   nbit_encode (mk_nbit 2 9 4 true true) [1; 255; 2; 64] = [121] /\
   nbit_decode (mk_nbit 2 9 4 true true) [121] 2 = Some [1; 255; 254; 127] /\
   nbit_project 2 9 4 true true [1; 255; 2; 64] = [1; 255; 254; 127].
-Proof. vm_compute. repeat split. Qed.
+Proof.
+  split; [|vm_compute; repeat split].
+  split; [cbn; auto|]. split; [lia|]. split; [lia|].
+  repeat constructor; unfold byte; lia.
+Qed.
 
-Example skphuff_example : skp_decode 2 (skp_encode 2 [5; 5; 5; 200; 5; 0; 255; 255]) 8 = Some [5; 5; 5; 200; 5; 0; 255; 255].
-Proof. vm_compute. reflexivity. Qed.
+Example skphuff_example : (1 <= 2 /\ Forall byte [5; 5; 5; 200; 5; 0; 255; 255]) /\ skp_decode 2 (skp_encode 2 [5; 5; 5; 200; 5; 0; 255; 255]) 8 = Some [5; 5; 5; 200; 5; 0; 255; 255].
+Proof. split; [split; [lia | repeat constructor; unfold byte; lia] | vm_compute; reflexivity]. Qed.
